@@ -189,11 +189,18 @@ def check_slots(prog: Program, rep, rule: str) -> None:
     if dfl is None:
         raise AnalysisError('PreferredUnits.defaults vanished')
     d2 = {}
-    for n in ast.walk(dfl.node):
+    for n in dfl.node.body:
+        if isinstance(n, ast.Expr) and isinstance(n.value, ast.Constant):
+            continue
         if isinstance(n, ast.Assign) and len(n.targets) == 1 and isinstance(n.targets[0], ast.Attribute) \
-                and isinstance(n.targets[0].value, ast.Name) and n.targets[0].value.id == dfl.positional[0]:
+                and isinstance(n.targets[0].value, ast.Name) and n.targets[0].value.id in (dfl.positional[0], 'PreferredUnits'):
             u = C.unit_of_expr(prog, umod, n.value)
             d2[n.targets[0].attr] = u or norm(n.value)
+            continue
+        # anything else (a loop over a table, a helper) sets slots in a way this reader does not follow: the table it
+        # would report as incomplete is then an artefact of the reader
+        raise AnalysisError(f'PreferredUnits.defaults() is no longer a plain list of slot assignments '
+                            f'(`{norm(n)[:60]}` at line {n.lineno}); its table cannot be read')
     tables.append(('PreferredUnits.defaults()', umod.path, dfl.node.lineno, d2))
     members = C.unit_members(prog)
     for path in prog.ss.toml_files():
@@ -319,12 +326,12 @@ def check_slots(prog: Program, rep, rule: str) -> None:
                 if isinstance(n.args[1], ast.Constant) and isinstance(n.args[1].value, str):
                     used.add(n.args[1].value)
                 else:
-                    # a name taken from a literal table of the package: every string in the table counts as read
-                    f_ = find_func_for_node(prog, mod, n)
-                    if f_ is not None:
-                        for c_ in ast.walk(f_.node):
-                            if isinstance(c_, ast.Constant) and isinstance(c_.value, str) and c_.value in SLOT_DIMENSION:
-                                used.add(c_.value)
+                    # a computed name: it comes from a table of the module (a literal in the function, or records built at
+                    # module level), so every slot name spelled in the module counts as read - an over-approximation of
+                    # the reads, which can only silence this rule
+                    for c_ in ast.walk(mod.tree):
+                        if isinstance(c_, ast.Constant) and isinstance(c_.value, str) and c_.value in SLOT_DIMENSION:
+                            used.add(c_.value)
     for slot in SLOT_DIMENSION:
         if slot not in used:
             rep.fail(rule, umod.path, pu.node.lineno, 'PreferredUnits', f'unused:{slot}',
@@ -332,13 +339,54 @@ def check_slots(prog: Program, rep, rule: str) -> None:
                      f'for is read through another slot')
 
 
-def _is_presentation(f: Optional[Func], mod: Module) -> Optional[str]:
+_DERIVED_PRESENTATION: Dict[int, Dict[str, str]] = {}
+
+
+def _derived_presentation(prog: Program) -> Dict[str, str]:
+    """Functions that are not in the inventory of the pinned tree and are called (by name, anywhere in the package) only from
+    presentation code: a helper split out of an output function is output code.  Least fixed point from the listed ones."""
+    if id(prog) in _DERIVED_PRESENTATION:
+        return _DERIVED_PRESENTATION[id(prog)]
+    from ..inline import KNOWN
+    out: Dict[str, str] = {}
+    _DERIVED_PRESENTATION[id(prog)] = out
+    new_funcs = [g for g in prog.all_funcs() if f'{g.module.path}::{g.qualname}' not in KNOWN and not g.name.startswith('__')]
+    callers: Dict[str, List[Tuple[Optional[Func], Module]]] = {}
+    names = {g.name for g in new_funcs}
+    for m_ in prog.modules.values():
+        for c in ast.walk(m_.tree):
+            nm = None
+            if isinstance(c, ast.Name) and isinstance(c.ctx, ast.Load):
+                nm = c.id
+            elif isinstance(c, ast.Attribute) and isinstance(c.ctx, ast.Load):
+                nm = c.attr
+            if nm in names:
+                callers.setdefault(nm, []).append((find_func_for_node(prog, m_, c), m_))
+    changed = True
+    while changed:
+        changed = False
+        for g in new_funcs:
+            if g.qualname in out:
+                continue
+            if sum(1 for h in new_funcs if h.name == g.name) != 1:
+                continue
+            cs = callers.get(g.name, [])
+            if cs and all(_is_presentation(cf, cm, prog) for cf, cm in cs):
+                out[g.qualname] = 'helper used only by output code'
+                changed = True
+    return out
+
+
+def _is_presentation(f: Optional[Func], mod: Module, prog: Optional[Program] = None) -> Optional[str]:
     if mod.name in PRESENTATION_MODULES:
         return PRESENTATION_MODULES[mod.name]
+    derived = _DERIVED_PRESENTATION.get(id(prog), {}) if prog is not None else {}
     g = f
     while g is not None:
         if g.qualname in PRESENTATION:
             return PRESENTATION[g.qualname]
+        if g.qualname in derived:
+            return derived[g.qualname]
         g = g.outer
     return None
 
@@ -443,6 +491,7 @@ def check_raw_numeric_use(prog: Program, rep, rule: str) -> None:
 
 
 def check_no_leak(prog: Program, rep, rule: str) -> None:
+    _derived_presentation(prog)
     umod = prog.module(C.M_UNIT)
     for mod in prog.modules.values():
         for n in ast.walk(mod.tree):
@@ -463,7 +512,7 @@ def check_no_leak(prog: Program, rep, rule: str) -> None:
                     else:
                         rep.ok(rule, mod.where(n), f'{fq}: PreferredUnits.{n.attr}(...) coercion')
                     continue
-                why = _is_presentation(f, mod)
+                why = _is_presentation(f, mod, prog)
                 if why:
                     rep.ok(rule, mod.where(n), f'{fq}: PreferredUnits.{n.attr} read for output ({why})')
                     continue
@@ -493,7 +542,7 @@ def check_no_leak(prog: Program, rep, rule: str) -> None:
                 if C.unit_of_expr(prog, mod, operand) is not None:
                     rep.ok(rule, mod.where(n), f'{fq}: literal unit {norm(operand)}')
                     continue
-                if _is_presentation(f, mod):
+                if _is_presentation(f, mod, prog):
                     continue
                 if mod is umod and f is not None and f.cls is not None:
                     continue          # the unit classes' own plumbing (self.units, parameters)
@@ -535,7 +584,7 @@ def check_no_leak(prog: Program, rep, rule: str) -> None:
                     and isinstance(n.ctx, ast.Load) and mod is not umod:
                 f = find_func_for_node(prog, mod, n)
                 fq = f.qualname if f else '<module>'
-                if _is_presentation(f, mod):
+                if _is_presentation(f, mod, prog):
                     continue
                 if n.attr == 'unit_value':
                     # re-wrap idiom  q.units(q.unit_value * k)
